@@ -23,6 +23,7 @@ type eqKind struct {
 	feed    func(c *Ctx, o interface{}, ops []int) // apply a history (indices into a fixed pool)
 	export  func(o interface{}) ([]byte, error)
 	imp     func(c *Ctx, doc []byte) (interface{}, error) // fresh instance + Import (Redis: new keys)
+	impInto func(h interface{}, doc []byte) error         // Redis kinds: Import under new keys into an EXISTING handle
 	equals  func(a, b interface{}) (bool, error)
 	absStr  func(o interface{}) (string, error)              // canonical parameters+payload
 	eqArgs  func(o interface{}) (string, error)              // argument block of the driver line
@@ -84,6 +85,12 @@ func eqCMS(redis bool) eqKind {
 			s, _ := gostatix.NewCountMinSketch(1, 1)
 			return cmsMem{s}, s.Import(doc)
 		},
+		impInto: func(h interface{}, doc []byte) error {
+			if u := cmsUnder(h.(cmsHandle)); u != nil {
+				return u.Import(doc, true)
+			}
+			return fmt.Errorf("not a redis handle")
+		},
 		equals: func(a, b interface{}) (bool, error) { return a.(cmsHandle).Equals(b.(cmsHandle)) },
 		absStr: func(o interface{}) (string, error) {
 			d, err := parseCMS(o.(cmsHandle).Export())
@@ -132,6 +139,12 @@ func eqHLL(redis bool) eqKind {
 			h, _ := gostatix.NewHyperLogLog(2)
 			return hllMem{h}, h.Import(doc)
 		},
+		impInto: func(h interface{}, doc []byte) error {
+			if u := hllUnder(h.(hllHandle)); u != nil {
+				return u.Import(doc, true)
+			}
+			return fmt.Errorf("not a redis handle")
+		},
 		equals: func(a, b interface{}) (bool, error) { return a.(hllHandle).Equals(b.(hllHandle)) },
 		absStr: func(o interface{}) (string, error) {
 			d, err := parseHLL(o.(hllHandle).Export())
@@ -162,8 +175,8 @@ func eqBloom(redis bool) eqKind {
 		name = "bloom.redis"
 	}
 	cfgs := []bloomCfg{
-		{kind: "params", numItems: 20, errorRate: 0.05},
-		{kind: "params", numItems: 21, errorRate: 0.05}, // other size
+		{kind: "params", numItems: 8, errorRate: 0.2}, // 27 bits, 3 hashes: dense after a few inserts
+		{kind: "params", numItems: 9, errorRate: 0.2}, // other size
 		{kind: "bitset", words: 2, numHashes: 3},
 	}
 	return eqKind{
@@ -293,6 +306,12 @@ func eqCuckoo(redis bool) eqKind {
 			f := gostatix.NewCuckooFilter(1, 1, 1)
 			return cuckooMem{f}, f.Import(doc)
 		},
+		impInto: func(h interface{}, doc []byte) error {
+			if x, ok := h.(cuckooRedis); ok {
+				return x.f.Import(doc, true)
+			}
+			return fmt.Errorf("not a redis handle")
+		},
 		equals: func(a, b interface{}) (bool, error) {
 			if redis {
 				return a.(cuckooRedis).f.Equals(*b.(cuckooRedis).f)
@@ -366,9 +385,15 @@ func eqTopK(redis bool) eqKind {
 			t := gostatix.NewTopK(1, 1, 0.5)
 			return topkMem{t}, t.Import(doc)
 		},
+		impInto: func(h interface{}, doc []byte) error {
+			if u := topkUnder(h); u != nil {
+				return u.Import(doc, true)
+			}
+			return fmt.Errorf("not a redis handle")
+		},
 		equals: func(a, b interface{}) (bool, error) {
 			if redis {
-				return a.(topkRedis).t.Equals(b.(topkRedis).t)
+				return topkUnder(a).Equals(topkUnder(b))
 			}
 			return a.(topkMem).t.Equals(b.(topkMem).t)
 		},
@@ -564,4 +589,14 @@ func equalsCuckooHoles(c *Ctx, redis bool) {
 		eqCheck(c, k, a, b, fmt.Sprintf("holes-differ-%d", where), nil)
 		eqCheck(c, k, a, a2, fmt.Sprintf("holes-same-%d", where), nil)
 	}
+}
+
+func topkUnder(o interface{}) *gostatix.TopKRedis {
+	switch x := o.(type) {
+	case topkRedis:
+		return x.t
+	case *topkMulti:
+		return x.pick().t
+	}
+	return nil
 }
